@@ -58,7 +58,7 @@ def fresh_on_foreign(case, step, tmp):
     try:
         with K.quiet(t):
             if case.get("sib"):
-                K.add_siblings(t, case.get("sib_fmt", step["fmt"]))
+                K.add_siblings(t, case.get("sib_fmt", step["fmt"]), case["sib"])
             K.do_any(step["entry"], t.handle(), step["graph"], step["fmt"], False, True, tmp)
             K.drain()
             snap = t.snapshot()
@@ -68,6 +68,11 @@ def fresh_on_foreign(case, step, tmp):
 
 
 def run_case(case):
+    # a str/Path root that holds nothing but the geff (no other member) is removed as a whole by delete_geff,
+    # together with foreign root attributes (documented behaviour, the property speaks of members): the
+    # attributes-only variant is used on store objects only
+    if case.get("sib") == "attrs" and case["kind"] not in ("mem", "local"):
+        case = {**case, "sib": "group"}
     try:
         return _run_case(case)
     except BaseException as e:  # noqa: BLE001
@@ -94,7 +99,7 @@ def _run_in(case, tmp):
         t = K.Target(kind, tmp)
         with K.quiet(t):
             if case.get("sib"):
-                K.add_siblings(t, case.get("sib_fmt", case["steps"][0]["fmt"]))
+                K.add_siblings(t, case.get("sib_fmt", case["steps"][0]["fmt"]), case["sib"])
         res["pre"] = K.model_state(t.snapshot(), t.keys_in_order() if kind == "mem" else None)
         for i, st in enumerate(case["steps"]):
             st = {**st, "i": i}
@@ -314,6 +319,11 @@ def gen_cases(ck):
     # bounded-exhaustive: the three-step history  write(A); write(B); write(C, overwrite)  for every
     # store kind x siblings x format x entry point (converters on path/str only)
     pathlike = ("path", "str") + K.TILDE_KINDS
+    # foreign content next to the geff: neutral names, names that look like geff's own members / metadata key
+    # (nodes_raw, edges.old, Nodes, props, geff_backup, … and root attributes geff_old, Geff, …), groups only, …
+    SIBS = ("array+group", "lookalike-prefix", "lookalike-mixed", "nested", "group", "lookalike-prefix", "array",
+            "lookalike-mixed", "attrs")
+    nsib = 0
     for fmt in (2, 3):
         for kind in K.KINDS + K.TILDE_KINDS:
             for sib in (False, True):
@@ -332,13 +342,16 @@ def gen_cases(ck):
                              {"entry": entry, "graph": small_graph(rng, 2, entry), "fmt": fmt, "overwrite": False}]
                     if entry != "write_dicts":
                         steps.append({"entry": entry, "graph": small_graph(rng, 3, entry), "fmt": fmt, "overwrite": True})
-                    cases.append({"kind": kind, "sib": sib, "steps": steps, "stream": "matrix"})
+                    nsib += 1
+                    cases.append({"kind": kind, "sib": SIBS[nsib % len(SIBS)] if sib else False, "steps": steps,
+                                  "stream": "matrix"})
     # seeded random histories of length 2-4, mixed entry points
     nrand = 12 if ck.quick else 500
     for _ in range(nrand):
         kind = rng.choice(K.KINDS + K.TILDE_KINDS)
         entries = graph_entries + (list(K.CONVERTERS) if kind in pathlike else [])
-        c = gen_history(rng, entries, kind, rng.choice((2, 3)), rng.random() < 0.5, rng.randint(2, 4))
+        c = gen_history(rng, entries, kind, rng.choice((2, 3)),
+                        rng.choice(K.SIB_VARIANTS) if rng.random() < 0.5 else False, rng.randint(2, 4))
         c["stream"] = "random"
         cases.append(c)
     # histories whose last step writes in the other zarr format (known finding D16)
@@ -507,6 +520,8 @@ def run(ck: common.Check):
         "comparison of the complete store after every step with the model's prediction; writes across zarr formats are a known finding")
     ck.extra.update(traces_validated_against_impl=n_model_steps, steps_total=n_steps, refused=n_refused, overwrites=n_over, histories=len(cases))
     ck.assumptions += [
+        "foreign root attributes of a str/Path container without any other member are not protected (delete_geff removes such "
+        "a root as a whole); everywhere else foreign members AND foreign root attributes must be byte-identical",
         "stores are compared as key -> bytes maps (MemoryStore dict / directory walk); empty directories are not content",
         "the model treats stored documents as opaque ids; equality of documents across writes is the equality of their bytes",
         "writes across zarr formats are outside the theorems (hypothesis SameFmt / PreOK) and recorded as known finding "
